@@ -1434,6 +1434,7 @@ def run(chk):
     replay_known(chk, binary, witness_fails_c08)
     if missing:
         chk.notes.append("generator no longer reaches: %s" % missing)
+    fails.sort(key=lambda f: len(f.get("formatted_decl") or f.get("source") or ""))      # smallest failing input first
     for f in fails[:15]:
         chk.violation("failing-input", f)
     if not fails:
